@@ -114,10 +114,15 @@ def mk_not(x):
 class Ctx:
     """one module + one class: where helpers are looked up"""
 
-    def __init__(self, mod, clsname=None, primitives=(), hook=None, bases=(), sig_mods=()):
+    def __init__(self, mod, clsname=None, primitives=(), hook=None, bases=(), sig_mods=(), helper_mods=()):
         """bases: [(module ast, class name)] whose methods the class inherits (own methods win)"""
         self.mod = mod
-        self.functions = {n.name: n for n in mod.body if isinstance(n, ast.FunctionDef)}
+        # helpers may live in this module or in the other given modules of the package (a private
+        # function that was moved there and is imported by name); this module's definitions win
+        self.functions = {}
+        for m in list(helper_mods) + [mod]:
+            self.functions.update({n.name: n for n in m.body if isinstance(n, ast.FunctionDef)})
+        sig_mods = list(sig_mods) + list(helper_mods)
         self.methods = {}
         self.static = set()
         self.ambiguous = set()
@@ -195,6 +200,88 @@ def positional(fv, args, kws, signatures):
     return args, sorted(rest.items())
 
 
+def format_term(fmt, args, kws):
+    """'..{}..{name}..{0!s}'.format(...) as the concatenation an f-string would be, or None"""
+    import string
+    parts, auto = [], 0
+    try:
+        fields = list(string.Formatter().parse(fmt))
+    except ValueError:
+        return None
+    kw = dict(kws)
+    for literal, name, spec, conv in fields:
+        if literal:
+            parts.append(C(literal))
+        if name is None:
+            continue
+        if spec or conv not in (None, "s"):
+            return None
+        if name == "":
+            if auto is None or auto >= len(args):
+                return None
+            v, auto = args[auto], auto + 1
+        elif name.isdigit():
+            if int(name) >= len(args):
+                return None
+            v, auto = args[int(name)], None
+        elif name in kw:
+            v = kw[name]
+        else:
+            return None
+        parts.append(("fmt", v))
+    return mk_concat(parts)
+
+
+def percent_term(fmt, arg):
+    """'%s_%s' % (a, b) as a concatenation, or None"""
+    import re
+    args = list(arg[1]) if arg[0] == "tuple" else [arg]
+    pieces = re.split(r"(%[sd%])", fmt)
+    parts = []
+    for p in pieces:
+        if p == "%%":
+            parts.append(C("%"))
+        elif p in ("%s", "%d"):
+            if not args:
+                return None
+            parts.append(("fmt", args.pop(0)))
+        elif "%" in p:
+            return None
+        elif p:
+            parts.append(C(p))
+    return mk_concat(parts) if not args else None
+
+
+def literal_call(fv, args, kws):
+    """calls whose value is determined by literal arguments: string formatting, empty containers,
+    enumerate / zip / reversed / range / tuple / list over literal sequences"""
+    if fv[0] == "attr" and fv[2] == "format" and fv[1][0] == "const" and isinstance(fv[1][1], str):
+        return format_term(fv[1][1], args, kws)
+    if fv == ("global", "dict") and not args:
+        return ("dict", tuple((C(k), v) for k, v in kws))          # dict(a=x, b=y) is {"a": x, "b": y}
+    if fv[0] != "global" or kws and fv[1] != "enumerate":
+        return None
+    n = fv[1]
+    seqs = [a for a in args if a[0] in ("tuple", "list")]
+    if n in ("list", "tuple", "dict", "set") and not args:
+        return ("dict", ()) if n == "dict" else ("list" if n == "list" else "tuple", ()) if n != "set" else None
+    if n in ("list", "tuple") and len(args) == 1 and len(seqs) == 1:
+        return (n, args[0][1])
+    if n == "enumerate" and len(args) in (1, 2) and args[0][0] in ("tuple", "list"):
+        start = dict(kws).get("start", args[1] if len(args) == 2 else C(0))
+        if start[0] == "const" and isinstance(start[1], int) and set(dict(kws)) <= {"start"}:
+            return ("tuple", tuple(("tuple", (C(start[1] + i), x)) for i, x in enumerate(args[0][1])))
+    if n == "zip" and args and len(seqs) == len(args) and len({len(a[1]) for a in args}) == 1:
+        return ("tuple", tuple(("tuple", tuple(a[1][i] for a in args)) for i in range(len(args[0][1]))))
+    if n == "reversed" and len(args) == 1 and seqs:
+        return ("tuple", tuple(reversed(args[0][1])))
+    if n == "range" and 1 <= len(args) <= 2 and all(a[0] == "const" and isinstance(a[1], int) and not isinstance(a[1], bool) for a in args):
+        r = range(*[a[1] for a in args])
+        if len(r) <= 8:
+            return ("tuple", tuple(C(i) for i in r))
+    return None
+
+
 def _lit(v):
     if isinstance(v, (tuple, list)):
         return ("tuple" if isinstance(v, tuple) else "list", tuple(_lit(x) for x in v))
@@ -262,6 +349,10 @@ class Exec:
             a, b = self.ev(e.left, env, eff), self.ev(e.right, env, eff)
             if isinstance(e.op, ast.Add) and (_is_str(a) or _is_str(b)):
                 return h(mk_concat([a, b]))
+            if isinstance(e.op, ast.Mod) and a[0] == "const" and isinstance(a[1], str):
+                pt = percent_term(a[1], b)
+                if pt is not None:
+                    return h(pt)
             return h(("add", a, b) if isinstance(e.op, ast.Add) else ("binop", type(e.op).__name__, a, b))
         if isinstance(e, ast.UnaryOp) and isinstance(e.op, ast.Not):
             return mk_not(self.ev(e.operand, env, eff))
@@ -425,6 +516,9 @@ class Exec:
             return self._flatten(node, eff, e)
         fv = self.ev(e.func, env, eff)
         args, kws = self._args(e, env, eff)
+        lit = literal_call(fv, args, kws)
+        if lit is not None:
+            return lit
         args, kws = positional(fv, args, kws, self.ctx.signatures)
         t = self.ctx.hook(("call", fv, tuple(args), tuple(sorted(kws))))
         if t[0] == "call":
@@ -473,10 +567,20 @@ class Exec:
         _fail("helper does not return a value here", where)
 
     def _pure(self, node, where):
-        while node[0] == "eff" and node[1][0] == "call" and show(node[1][1]) in self.ctx.droppable:
+        pend = []
+        while node[0] == "eff" and node[1][0] == "call":
+            if show(node[1][1]) not in self.ctx.droppable:
+                pend.append(node[1])
             node = node[2]
         if node[0] == "ret":
+            for e in pend:        # calls whose results only make up the returned value (and cannot touch files)
+                r = _call_root(e)
+                if not _contains(node[1], e) or (r[0] == "global" and r[1] in UNSAFE_ROOTS) or \
+                        (r == ("global", "os") and not show(e[1]).startswith("os.path.")):
+                    _fail("a helper with conditional effects is used inside an expression", where)
             return node[1]
+        if pend:
+            _fail("a helper with conditional effects is used inside an expression", where)
         if node[0] == "if":
             return simplify_ite(node[1], self._pure(node[2], where), self._pure(node[3], where))
         _fail("a helper with conditional effects is used inside an expression", where)
@@ -499,6 +603,14 @@ class Exec:
             eff = []
             node = self.call_helper(self._helper_of(s.value), s.value, env, eff, lambda v: nxt(env))
             return _chain(eff, node)
+        if isinstance(s, ast.Expr) and isinstance(s.value, ast.YieldFrom):
+            # yield from X  ==  for v in X: yield v
+            v = ast.Name(id="_yield_from_item", ctx=ast.Store())
+            loop = ast.For(target=v, iter=s.value.value,
+                           body=[ast.Expr(value=ast.Yield(value=ast.Name(id="_yield_from_item", ctx=ast.Load())))], orelse=[])
+            for n in ast.walk(loop):
+                ast.copy_location(n, s)
+            return self.run([loop] + rest, env, kf, kr, kc)
         if isinstance(s, ast.Expr) and isinstance(s.value, (ast.Yield, ast.YieldFrom)):
             if isinstance(s.value, ast.YieldFrom) or s.value.value is None:
                 _fail("yield form", s)
@@ -587,6 +699,19 @@ class Exec:
         if isinstance(s, ast.For):
             if s.orelse:
                 _fail("for/else", s)
+            if isinstance(s.iter, ast.Call) and _u(s.iter.func) in ("product", "itertools.product") \
+                    and len(s.iter.args) == 2 and not s.iter.keywords:
+                # for t in product(A, B)  ==  for a in A: for b in B: t = (a, b)
+                a, b = "_product_item0", "_product_item1"
+                bind = ast.Assign(targets=[s.target], value=ast.Tuple(
+                    elts=[ast.Name(id=a, ctx=ast.Load()), ast.Name(id=b, ctx=ast.Load())], ctx=ast.Load()))
+                inner = ast.For(target=ast.Name(id=b, ctx=ast.Store()), iter=s.iter.args[1], body=[bind] + list(s.body), orelse=[])
+                outer = ast.For(target=ast.Name(id=a, ctx=ast.Store()), iter=s.iter.args[0], body=[inner], orelse=[])
+                for top in (bind, inner, outer):
+                    for n in ast.walk(top):
+                        if not hasattr(n, "lineno"):
+                            ast.copy_location(n, s)
+                return self.run([outer] + rest, env, kf, kr, kc)
             if isinstance(s.iter, ast.Call) and self._helper_of(s.iter) and _is_generator(self._helper_of(s.iter)[0]):
                 return self._for_generator(s, rest, env, kf, kr, kc)
             eff = []
@@ -687,10 +812,11 @@ class Exec:
                 if not (isinstance(st, ast.Assign) and len(st.targets) == 1
                         and isinstance(st.targets[0], (ast.Name, ast.Tuple))):
                     return None
-                if any(isinstance(n, ast.Call) for n in ast.walk(st.value)):
-                    return None                      # calls are traced: keep the fork
-                eff = []
-                v = self.ev(st.value, e1, eff)
+                eff = []                             # (a traced call keeps the fork)
+                try:
+                    v = self.ev(st.value, e1, eff)
+                except Unsupported:
+                    return None                      # e.g. a helper with conditional effects: fork
                 if eff:
                     return None
                 self._bind_target(st.targets[0], v, e1)
